@@ -485,6 +485,35 @@ func channelFacts() {
 			}
 		}
 	}
+	// enqueue: the hand-off to the sender is one select with the channel's parent context, the caller's context and the send queue
+	enqCtx := false
+	if f := p.findFunc("channel.go", "channel.enqueue"); f != nil {
+		ast.Inspect(f, func(n ast.Node) bool {
+			if sel, ok := n.(*ast.SelectStmt); ok {
+				hasParent, hasCtx, hasQ := false, false, false
+				for _, cl := range sel.Body.List {
+					cc := cl.(*ast.CommClause)
+					if cc.Comm == nil {
+						continue
+					}
+					c := p.src(cc.Comm)
+					switch {
+					case strings.Contains(c, "c.parentCtx.Done()"):
+						hasParent = true
+					case strings.Contains(c, "req.ctx.Done()"):
+						hasCtx = p.mentions(cc, "return")
+					case strings.Contains(c, "c.sendQ <- req"):
+						hasQ = true
+					}
+				}
+				if hasParent && hasCtx && hasQ {
+					enqCtx = true
+				}
+			}
+			return true
+		})
+	}
+	defBool("ch_enqueueWaitsCtx", enqCtx)
 	defBool("ch_replaceCancels", replaceCancels)
 	defBool("ch_markBeforeSend", markBeforeSend)
 	defBool("ch_cancelSkipsUnwritten", skipsUnwritten)
@@ -588,6 +617,33 @@ func onewayFacts() {
 		})
 	}
 	defE("mcast_waitCond", cond)
+	// the waits for send confirmations have a context case that ends the wait (ReplyLoop.waitLoop `waitsCtx`)
+	waits := func(file, fn string) bool {
+		f := p.findFunc(file, fn)
+		if f == nil {
+			return false
+		}
+		ok := false
+		ast.Inspect(f, func(n ast.Node) bool {
+			sel, isSel := n.(*ast.SelectStmt)
+			if !isSel || !p.mentions(sel, "<-replyChan") {
+				return true
+			}
+			for _, cl := range sel.Body.List {
+				cc := cl.(*ast.CommClause)
+				if cc.Comm != nil && p.mentions(cc.Comm, "ctx.Done()") {
+					// leaves the wait: `return` (inside the loop of Multicast) or falls out of a select that is the last statement (Unicast)
+					if p.mentions(cc, "return") || (len(cc.Body) == 0 && f.Body.List[len(f.Body.List)-1] == ast.Stmt(sel)) {
+						ok = true
+					}
+				}
+			}
+			return true
+		})
+		return ok
+	}
+	defBool("mcast_waitsCtx", waits("multicast.go", "RawConfiguration.Multicast"))
+	defBool("ucast_waitsCtx", waits("unicast.go", "RawNode.Unicast"))
 }
 
 // templateFacts: one digest per template file (all its declarations, comments dropped).
